@@ -87,6 +87,11 @@ def seq_machines():
                 "v.clk": ("bb_input", ["clk"]), "v.d": ("bb_input", ["g1"]), "v.q": ("bb_output", []), "w1": ("buf", ["v.q"]),
                 "g0": ("nor", ["x", "w1"]), "g1": ("xnor", ["w0", "x"]), "y": ("or", ["w0", "w1"])}, outputs=["y", "g1"], blackboxes={"u": ff, "v": ff})
     yield "two-flops", c2, ff
+    c3 = build({"x": ("input", []), "clk": ("input", []),
+                "cnt.clk": ("bb_input", ["clk"]), "cnt.d": ("bb_input", ["g0"]), "cnt.q": ("bb_output", []), "w0": ("buf", ["cnt.q"]),
+                "cnt_hi.clk": ("bb_input", ["clk"]), "cnt_hi.d": ("bb_input", ["g1"]), "cnt_hi.q": ("bb_output", []), "w1": ("buf", ["cnt_hi.q"]),
+                "g0": ("xor", ["x", "w0"]), "c0": ("and", ["x", "w0"]), "g1": ("xor", ["c0", "w1"]), "y": ("and", ["w0", "w1"])}, outputs=["y"], blackboxes={"cnt": ff, "cnt_hi": ff})
+    yield "flop-name-is-a-prefix-of-another", c3, ff
 
 
 def seq_reference(c, init, seq):
@@ -206,4 +211,13 @@ def run(chk):
         for label, args in (("bad d port", (c, 2, "nope", "q")), ("bad q port", (c, 2, "d", "nope"))):
             r = P.call(FILE, "sequential_unroll", *args)
             chk.ob("C09.G.guards", f"sequential_unroll::{name}::{label}", r[0] == "raise" and r[1] == "ValueError", file=FILE, func="sequential_unroll", line=fs.node.lineno, fact={"result": str(r)[:100]}, expect="ValueError")
+    from ..stale import circuit_snapshot, stale_state_rule
+
+    def _call(c):
+        r = P.call(FILE, "unroll", c, 2, {"g": "c"})
+        if r[0] != "return":
+            raise ModelRaise(r[1], r[2] if len(r) > 2 else "")
+        return r[1]
+
+    stale_state_rule(chk, "C09.H.no-stale-state", _call, circuit_snapshot, FILE, "unroll")
     chk.floor("unroll evaluations", n_eval, 40)
